@@ -467,7 +467,7 @@ Section ValidB.
   Proof.
     intros [Hh [Hnd Hent]]. pose proof (hdr_wf_shape_wf _ Hh) as Hwf.
     destruct Hh as [Hn [Hp [Hsd [[Ha4 Har] Hb]]]].
-    unfold validb. repeat (apply andb_true_iff; split).
+    unfold validb. rewrite !andb_true_iff. repeat match goal with |- _ /\ _ => split end.
     - unfold ndim_ok. apply andb_true_iff. split; [apply Nat.leb_le | apply Nat.ltb_lt]; lia.
     - apply forallb_forall. intros n Hin. rewrite Forall_forall in Hp. apply Nat.leb_le. auto.
     - destruct (sdim (hdr_of e)) as [d|]; [apply Nat.ltb_lt; auto | reflexivity].
